@@ -20,7 +20,7 @@ PROP = dict(
                                    'EPV.C05.call_replicate', 'EPV.C05.call_value_batch_independent']),
         # the real code
         obl('C06.batch.real', oracle=[o_c06.batch, o_c06.eppiston_batch, o_c06.ie_batch, o_c06.r2d_fan_order, o_c06.guderley_batch,
-                                      o_c07rest.default_dicts_do_not_leak]),
+                                      o_c07rest.default_dicts_do_not_leak, o_c06.coord_major_instances]),
         obl('C06.history.real', oracle=o_c06.history),
         obl('C06.shared_solver.real', oracle=o_c06.shared_solver),
     ],
